@@ -48,6 +48,29 @@ err_t x_bake_certval(octet* pubkey, const bign_params* params,
 	return ERR_OK;
 }
 
+/* a second certificate format with its own validator: data = pubkey[l / 2] || name || 0xA5 (bake.h: every certificate carries its validator) */
+err_t x_bake_certval2(octet* pubkey, const bign_params* params,
+	const octet* data, size_t len)
+{
+	if (!memIsValid(params, sizeof(bign_params)) ||
+		(params->l != 128 && params->l != 192 && params->l != 256) ||
+		!memIsNullOrValid(pubkey, params->l / 2))
+		return ERR_BAD_INPUT;
+	if (!memIsValid(data, len) || len < params->l / 2 + 1 || data[len - 1] != 0xA5)
+		return ERR_BAD_CERT;
+	if (pubkey)
+		memcpy(pubkey, data, params->l / 2);
+	return ERR_OK;
+}
+
+void x_bake_cert2(bake_cert* c, octet* data, size_t len)
+{
+	memset(c, 0, sizeof(*c));
+	c->data = data;
+	c->len = len;
+	c->val = x_bake_certval2;
+}
+
 void x_bake_cert(bake_cert* c, octet* data, size_t len)
 {
 	memset(c, 0, sizeof(*c));
